@@ -68,6 +68,9 @@ class Ctx:
         if key == "nozzle":
             attrs["geomterm"] = self.alg.sym("G")
             attrs["_xc"] = self.alg.sym("xc")
+        from .interp import ObjStub
+        for reg in ("_bcdict", "_vardict", "_numfluxdict"):
+            attrs[reg] = ObjStub(reg, {"merge": (lambda other: None)})
         self.selfobj = SelfObj(self.cls, attrs)
         self.neq = self.spec["neq"]
 
